@@ -113,6 +113,14 @@ Definition rp_bk_truncate (w : rp_w) : rp_w :=
     {| wm_fpos := wm_fpos r1; wm_fend := N.min (wm_fend r1) (wm_fpos r1); wm_offset := wm_offset r1; wm_hdr := wm_hdr r1;
        wm_last_pl := wm_last_pl r1; wm_disk := wm_disk r1; wm_rlog := wm_rlog r1; wm_fault := wm_fault r1 |}).
 
+(* jls_raw_close of a file open for append = wr_file_header: the length it writes is the REAL size of the file
+   (lseek(fd, 0, SEEK_END)), not the raw's fend *)
+Definition rp_wm_wr_file_header (file_sz : N) (r : wm_raw) : wm_raw :=
+  let pos := wm_fpos r in
+  let r1 := wm_bk_fwrite (wm_bk_fseek r 0) (wm_file_header_bytes file_sz) in
+  if pos =? 0 then wm_set_offset r1 (wm_fpos r1) else wm_bk_fseek r1 pos.
+Definition rp_raw_close (w : rp_w) : rp_w := rp_with_raw w (rp_wm_wr_file_header (rp_flen (rp_w_io w))).
+
 (* jls_core_update_chunk_header: rewrite the 32 bytes of chunk->hdr at chunk->offset, return to the current chunk *)
 Definition rp_update_chunk_header (w : rp_w) (ch : wm_chunk) : rp_w :=
   if wm_ck_offset ch =? 0 then w
@@ -475,7 +483,7 @@ Definition rp_exit_fsr (w : rp_w) (id : N) : rp_w :=
   end.
 Definition rp_exit (w : rp_w) (rc : N) : rp_result :=
   let w1 := fold_left rp_exit_fsr rp_signal_ids w in
-  rp_res rc (rp_with_raw w1 wm_raw_close) true.
+  rp_res rc (rp_raw_close w1) true.
 
 (* the end of jls_rd_open: (jls_fsr_open of every FSR signal,) jls_core_scan_fsr_sample_id *)
 Definition rp_finish (w : rp_w) (did : bool) (end_off : N) : rp_result :=
@@ -509,8 +517,7 @@ Definition rp_end_state (w9 : rp_w) : rp_w :=
   let w9s := rp_end_seek w9 in
   let w9a := if rp_w_inplace w9s then rp_w_set_uninit w9s else w9s in
   let b9 := rp_wm_base w9a 0 in
-  let b10 := wm_core_wr_end b9 in
-  rp_commit w9a (wm_b_set_raw b10 (wm_raw_close (wm_b_raw b10))).
+  rp_raw_close (rp_commit w9a (wm_core_wr_end b9)).
 Definition rp_repair_end (w9 : rp_w) : rp_result :=
   let end_off := rp_offset (rp_r (rp_w_io (rp_end_seek w9))) in
   let w10 := rp_end_state w9 in
